@@ -135,3 +135,28 @@ def generating_set_as_weights(prog: Program, rep, RID: str, cname: str) -> int:
         else:
             raise AnalysisError(f"{cname}._solve_with_given_weights: cannot classify `{norm(a)[:80]}`")
     return n
+
+
+def float_sum_exact_compare(prog: Program, rep, RID: str, cname: str, mname: str) -> int:
+    """sum(parts) == total on floats: parts that add up to the total as decimal numbers differ from it in the last binary digits (and
+    a running sum differs from the compensated sum()).  A validation that rejects on inequality has to compare with a tolerance."""
+    f = prog.own_method(cname, mname)
+    n = 0
+    for node in ast.walk(f.node):
+        if isinstance(node, ast.Compare) and len(node.ops) == 1 and isinstance(node.ops[0], (ast.Eq, ast.NotEq)):
+            sides = [node.left, node.comparators[0]]
+            if any(isinstance(s_, ast.Call) and dotted(s_.func) == "sum" for s_ in sides) and not any(isinstance(s_, ast.Constant) for s_ in sides):
+                n += 1
+                rep.violation(RID, f"{cname}.{mname}:exact-sum-compare", f"`{norm(node)}` compares a sum of caller-given numbers exactly: float parts that add up to the total up "
+                              "to rounding (0.1 + 0.2 + 0.3 vs 0.6, running sum vs compensated sum()) are rejected with ValueError", f.loc(node))
+    close = [c for c in calls_in(f.node) if dotted(c.func) in ("math.isclose", "isclose") and any(isinstance(a, ast.Call) and dotted(a.func) == "sum" for a in c.args)]
+    for c in close:
+        n += 1
+        tols = [k.value.value for k in c.keywords if isinstance(k.value, ast.Constant) and isinstance(k.value.value, (int, float))]
+        if tols and all(0 <= t <= 1e-6 for t in tols):
+            rep.ok(RID, f"{cname}.{mname}:sum-compare", f"sums are compared with a tolerance: `{norm(c)[:80]}`", f.loc(c))
+        else:
+            rep.violation(RID, f"{cname}.{mname}:sum-compare", f"`{norm(c)[:80]}` uses a tolerance above 1e-6 (or the default relative one only)", f.loc(c))
+    if n == 0:
+        raise AnalysisError(f"{cname}.{mname}: no comparison of a sum with the total found")
+    return n
